@@ -314,15 +314,31 @@ class Prog:
         return out
 
 
-def patch_signed_div(insns):
-    """defect model for KF_DIV: execute every DIV/MOD as signed"""
-    out = []
-    for ins in insns:
-        if ins is not None and (ins[0] & 7) in (4, 7) \
-                and (ins[0] & 0xf0) in (0x30, 0x90) and ins[3] == 0:
-            ins = (ins[0], ins[1], ins[2], 1, ins[4])
-        out.append(ins)
+def div_sites(insns):
+    return [i for i, ins in enumerate(insns)
+            if ins is not None and (ins[0] & 7) in (4, 7)
+            and (ins[0] & 0xf0) in (0x30, 0x90) and ins[3] == 0]
+
+
+def patch_signed_div(insns, sites=None):
+    """defect model for KF_DIV: execute the DIV/MOD instructions at `sites`
+    (default: all of them) as signed"""
+    if sites is None:
+        sites = div_sites(insns)
+    out = list(insns)
+    for i in sites:
+        ins = out[i]
+        out[i] = (ins[0], ins[1], ins[2], 1, ins[4])
     return out
+
+
+def signed_div_variants(insns):
+    """all non-empty subsets of the DIV/MOD sites executed as signed (a
+    tree may mix genuinely unsigned divisions with signed ones)"""
+    sites = div_sites(insns)
+    for n in range(len(sites), 0, -1):
+        for sub in itertools.combinations(sites, n):
+            yield patch_signed_div(insns, sub)
 
 
 def patch_sx_moves(insns, swregs):
@@ -404,14 +420,17 @@ def run_case(tree, dest, alias, vectors, res, kernel_every=0, caseno=0):
         # ---- a wrong value: is it exactly one of the documented defects?
         kf = None
         if has_signed(tree) and tree_ops(tree) & {"//", "%"}:
-            vm2 = bpfvm.VM(bpfvm.Kernel(), patch_signed_div(p.b._decoded),
-                           p.b.packet(p.inputs(env)))
-            try:
-                vm2.run()
-                if unswap(dest, p.b.outputs(vm2.packet)[0]) & dmask in exp:
-                    kf = KF_DIV
-            except bpfvm.Trap:
-                pass
+            for variant in signed_div_variants(p.b._decoded):
+                vm2 = bpfvm.VM(bpfvm.Kernel(), variant,
+                               p.b.packet(p.inputs(env)))
+                try:
+                    vm2.run()
+                    if unswap(dest, p.b.outputs(vm2.packet)[0]) & dmask \
+                            in exp:
+                        kf = KF_DIV
+                        break
+                except bpfvm.Trap:
+                    pass
         if kf is None and any(l[0] == "reg" and l[1] == "sw" and env[l] < 0
                               for l in p.leaves):
             try:
@@ -419,8 +438,9 @@ def run_case(tree, dest, alias, vectors, res, kernel_every=0, caseno=0):
                 swregs = {p2.regno[l] for l in p2.leaves
                           if l[0] == "reg" and l[1] == "sw"}
                 ins2 = patch_sx_moves(p2.b._decoded, swregs)
-                for kfc, ins in ((KF_SX, ins2),
-                                 ([KF_DIV, KF_SX], patch_signed_div(ins2))):
+                cands = [(KF_SX, ins2)] + [
+                    ([KF_DIV, KF_SX], v) for v in signed_div_variants(ins2)]
+                for kfc, ins in cands:
                     vm2 = bpfvm.VM(bpfvm.Kernel(), ins,
                                    p2.b.packet(p2.inputs(env, sx_sw=True)))
                     vm2.run()
@@ -565,7 +585,7 @@ def run(ctx):
     else:
         l2 = [("reg", "r"), ("reg", "sw"), ("reg", "w"), ("loc", "h"),
               ("loc", "Q"), ("const", 3), ("const", -2)]
-        d2 = [("reg", "r"), ("reg", "sw"), ("loc", "i"), ("loc", "q")]
+        d2 = [("reg", "r"), ("reg", "sw"), ("loc", "q")]
         ops1 = list(OPS)
     for a, b, c in itertools.product(l2, repeat=3):
         if all(x[0] == "const" for x in (a, b, c)):
